@@ -159,11 +159,11 @@ def run_impl(case):
         one = H.solve_bruteforce()
     except KeyError as ex:
         # the solver enumerates the model's variables and asks is_solution_valid, which evaluates every recorded constraint
-        clabs = {l for c in case["calls"] if c["t"] == "cmp" for k, _ in G.unjraw(c["c"]["P"]) for l in k}
+        clabs = {l for lst in H.constraints.values() for P in lst for k in P for l in k}
         missing = sorted((l for l in clabs if l not in H.variables), key=C.enc)
         if missing:
             out["checks"].append("solve_bruteforce() raised KeyError(%s): a recorded constraint mentions label(s) %r that are not "
-                                 "variables of the model (the constraint added no terms)" % (ex, missing))
+                                 "variables of the model (none of the terms the constraint added mentions them)" % (ex, missing))
             out["skip"] = True
             return out
         raise
@@ -239,7 +239,7 @@ def oracle(case, out):
 
 def finding_key(case, what):
     """groups the failing inputs of one known finding (see known_findings.txt)"""
-    if what and any("that are not variables of the model (the constraint added no terms)" in w for w in what):
+    if what and any("raised KeyError" in w and "that are not variables of the model" in w for w in what):
         return "bruteforce-keyerror-constraint-label-not-a-variable"
     return None
 
